@@ -356,7 +356,10 @@ func (r *reader) initNodes(tr io.Reader) error {
 	}
 	md := make(map[uint32]*metadataEntry)
 	st := make(map[int64]map[int64]uint32)
-	if err := r.db.Batch(func(tx *bolt.Tx) (err error) {
+	// NOTE: This must not be db.Batch. bbolt runs a batched function again when it (or
+	// another function of the same batch) fails. This function consumes the JSON
+	// decoder and fills md/st, so a second run sees no entry and succeeds.
+	if err := r.db.Update(func(tx *bolt.Tx) (err error) {
 		nodes, err := getNodes(tx, r.fsID)
 		if err != nil {
 			return err
